@@ -51,7 +51,7 @@ stats = D.stats
 
 
 def gen_cases(tier, seed):
-  out = D.gen_cases(PID, tier, seed, 260, 5000)
+  out = D.gen_cases(PID, tier, seed, 600, 5000)
   if tier == 'thorough':
     out += D.gen_exhaustive(6, 4)
   return out
